@@ -3,15 +3,16 @@
 
       <noclobber 0|1> <limit N|-> <pre-opened descriptors|-> | <kind> | <fd> <op> <operand>; …
 
-  pre-opened: comma-separated `<fd><r|w|b|c>` (a descriptor on /tmp/p: read-only, write-only,
-  read-write, read-write with CLOEXEC) or `<fd>x` (a standard descriptor closed).
+  pre-opened: comma-separated `<fd><r|w|b|c|R|W>` (a descriptor on /tmp/p: read-only, write-only,
+  read-write, read-write with CLOEXEC, read-only with CLOEXEC, write-only with CLOEXEC) or `<fd>x`
+  (a standard descriptor closed).
   op: in out clob app rw dupin dupout here pipe hstr; operand: a b m n d e (paths), a descriptor
   number, `-`, `z` (malformed), `E` (failing expansion).
 
   stdout: `<model observation>\t<spec verdict>`.
 -/
 import YashModel.Common.Proto
-import YashModel.Redir.Spec
+import YashModel.Redir.Nested
 open YashModel YashModel.Redir YashModel.Proto
 
 def fileName (i : Nat) : String :=
@@ -88,7 +89,9 @@ def initial (nc : Bool) (lim : Option Nat) (pre : List String) (inter : Bool := 
         if m = 'x' then go w (t.close fd) ps else
         let acc ← (match m with
           | 'r' => some (true, false, false) | 'w' => some (false, true, false)
-          | 'b' => some (true, true, false) | 'c' => some (true, true, true) | _ => none)
+          | 'b' => some (true, true, false) | 'c' => some (true, true, true)
+          -- read-only / write-only and CLOEXEC
+          | 'R' => some (true, false, true) | 'W' => some (false, true, true) | _ => none)
         go { w with ofds := w.ofds ++ [⟨9, acc.1, acc.2.1, false, 0⟩] }
            (t.put fd (some ⟨w.ofds.length, acc.2.2⟩)) ps
       | [] => none
@@ -137,8 +140,8 @@ def showCause : ErrCause → String
   | .unsupported => "uns"
   | .nulByte => "nul"
 
-def observeCmd (tr : Trace) : String :=
-  let d := match tr.steps with
+def obsD (tr : Trace) : String :=
+  match tr.steps with
     | some (steps, cause) =>
       -- the guard driven directly: the table after every `perform_redir`, then the error cause
       let ss := steps.map fun (ws, ts) => showSnap ws ts
@@ -151,24 +154,54 @@ def observeCmd (tr : Trace) : String :=
         | some bs => if tainted then "T" else hexOf bs
       s!"{showSnap wd td}|w{if wrote then 1 else 0}|r{r}"
     | _, _, _ => "-"
-  let a := match tr.status with
+
+def obsA (tr : Trace) : String :=
+  match tr.status with
     | some st => if tr.exited.isSome then "-" else s!"{st}:{showSnap tr.w tr.t}"
     | none => "-"
-  s!"D={d} A={a}"
 
-def parseCmds : List String → Option (List (Kind × List Redir))
+/-- a nested command shows: the table its first `imark` saw (outer list applied), what the inner command's
+    body saw, `$?` and table at the second `imark` (inner list undone or persisted) -/
+def observeCmd (ct : CmdTrace) : String :=
+  match ct.inner with
+  | none => s!"D={obsD ct.tr} A={obsA ct.tr}"
+  | some (wi, ti, tri) => s!"D=N:{showSnap wi ti}~{obsD tri}~{obsA tri} A={obsA ct.tr}"
+
+/-- kinds of the nested family: the inner command's kind -/
+def parseNestKind (s : String) : Option Kind :=
+  match s with
+  | "nest" | "nestfn" => some .regular | "nestsp" => some .special | "nestexec" => some .exec
+  | "nestnf" => some .notFound | "nestcolon" => some .colon | "nestexecnf" => some .execNotFound
+  | _ => none
+
+/-- the list of a nested command: `outer…; 0 nest -; inner…` -/
+def splitNest (items : List String) : List String × List String :=
+  (items.takeWhile (fun i => (words i)[1]? != some "nest"), (items.dropWhile (fun i => (words i)[1]? != some "nest")).drop 1)
+
+def parseCmds : List String → Option (List Cmd)
   | kind :: redirs :: rest => do
-    let k ← parseKind kind
-    let rs ← ((splitTrim redirs ";").filter (· ≠ "")).mapM parseRedir
+    let items := (splitTrim redirs ";").filter (· ≠ "")
     let more ← parseCmds rest
-    pure ((k, rs) :: more)
+    match parseNestKind kind with
+    | some ki =>
+      let (o, i) := splitNest items
+      if !(items.any fun it => (words it)[1]? == some "nest") then none else
+      pure (.nested (← o.mapM parseRedir) ki (← i.mapM parseRedir) :: more)
+    | none =>
+      let k ← parseKind kind
+      let rs ← items.mapM parseRedir
+      pure (.plain k rs :: more)
   | [] => some []
   | [_] => none
+
+def Cmd.isNested : Cmd → Bool
+  | .nested .. => true
+  | _ => false
 
 def runLine (line : String) : String :=
   match splitTrim line "|" with
   | hdr :: cmdFields =>
-    let parsed : Option (Bool × Option Nat × List String × List (Kind × List Redir) × Bool) := do
+    let parsed : Option (Bool × Option Nat × List String × List Cmd × Bool) := do
       let ws := words hdr
       let inter := ws.length == 4 && ws[3]? == some "i"
       match ws.take 3 with
@@ -178,7 +211,9 @@ def runLine (line : String) : String :=
         let lim ← (if lim = "-" then some none else lim.toNat?.map some)
         let pre := if pre = "-" then [] else pre.splitOn ","
         let cmds ← parseCmds cmdFields
-        if cmds.isEmpty then none else pure (nc != 0, lim, pre, cmds, inter)
+        -- nested commands are run in non-interactive shells only (the model has no `Divert::Interrupt`
+        -- travelling through the outer command back to the read-eval loop)
+        if cmds.isEmpty || (inter && cmds.any Cmd.isNested) then none else pure (nc != 0, lim, pre, cmds, inter)
       | _ => none
     match parsed with
     | none => "bad-case\t-"
@@ -186,13 +221,13 @@ def runLine (line : String) : String :=
       match initial nc lim pre inter with
       | none => "bad-case\t-"
       | some (w0, t0) =>
-        let trs := runScript w0 t0 0 cmds
-        let ran := trs.map fun (_, tr) => observeCmd tr
+        let trs := runScript2 w0 t0 0 cmds
+        let ran := trs.map fun (_, ct) => observeCmd ct
         let skipped := List.replicate (cmds.length - trs.length) "D=- A=-"
         let (wf, tf, ex) := match trs.getLast? with
-          | some (_, tr) => (tr.w, tr.t, match tr.exited with | some n => n | none => tr.status.getD 0)
+          | some (_, ct) => (ct.tr.w, ct.tr.t, match ct.tr.exited with | some n => n | none => ct.tr.status.getD 0)
           | none => (w0, t0, 0)
-        let verdicts := (trs.zip cmds).map fun ((tb, tr), (k, rs)) => specVerdict tb k rs tr
+        let verdicts := (trs.zip cmds).map fun ((tb, ct), c) => specVerdictCmd tb c ct
         let verdict := (verdicts.find? (· ≠ "ok")).getD "ok"
         s!"B={showSnap w0 t0} {" ".intercalate (ran ++ skipped)} F={showSnap wf tf} files={showFiles wf} exit={ex}"
           ++ "\t" ++ verdict
